@@ -28,12 +28,12 @@ const NOW: u64 = 800_000_000; // Matter-epoch seconds
 const FAB: u64 = 1;
 
 #[derive(Clone)]
-struct Key {
-    secret: CanonPkcSecretKey,
-    public: CanonPkcPublicKey,
-    kid: [u8; 20],
+pub struct Key {
+    pub secret: CanonPkcSecretKey,
+    pub public: CanonPkcPublicKey,
+    pub kid: [u8; 20],
 }
-fn new_key<C: Crypto>(c: &C) -> Key {
+pub fn new_key<C: Crypto>(c: &C) -> Key {
     let sk = c.generate_secret_key().unwrap();
     let mut secret = CanonPkcSecretKey::new();
     sk.write_canon(&mut secret).unwrap();
@@ -42,7 +42,7 @@ fn new_key<C: Crypto>(c: &C) -> Key {
     let kid = compute_key_id(c, public.reference()).unwrap();
     Key { secret, public, kid }
 }
-fn key_from_secret(secret: &CanonPkcSecretKey) -> Key {
+pub fn key_from_secret(secret: &CanonPkcSecretKey) -> Key {
     let c = test_only_crypto();
     let sk = c.secret_key(secret.reference()).unwrap();
     let mut public = CanonPkcPublicKey::new();
@@ -53,34 +53,34 @@ fn key_from_secret(secret: &CanonPkcSecretKey) -> Key {
 
 /// Concrete certificate description (every field individually settable).
 #[derive(Clone)]
-struct Spec {
-    subject: Vec<(u8, u64)>,
-    issuer: Vec<(u8, u64)>,
-    key: Key,
-    signer: Key,
-    akid: [u8; 20],
-    nb: u32,
-    na: u32,
-    is_ca: bool,
-    path_len: Option<u8>,
-    ku: u16,
-    eku: Vec<u8>,
-    crit_ext: bool,
+pub struct Spec {
+    pub subject: Vec<(u8, u64)>,
+    pub issuer: Vec<(u8, u64)>,
+    pub key: Key,
+    pub signer: Key,
+    pub akid: [u8; 20],
+    pub nb: u32,
+    pub na: u32,
+    pub is_ca: bool,
+    pub path_len: Option<u8>,
+    pub ku: u16,
+    pub eku: Vec<u8>,
+    pub crit_ext: bool,
     /// future-extensions elements: each a list of X.509 extensions given by their critical flag (in addition to `crit_ext`)
-    exts: Vec<Vec<bool>>,
-    bad_sig: bool,
-    serial: u8,
+    pub exts: Vec<Vec<bool>>,
+    pub bad_sig: bool,
+    pub serial: u8,
 }
 const DN_NODE: u8 = 17;
 const DN_ICA: u8 = 19;
 const DN_ROOT: u8 = 20;
 const DN_FABRIC: u8 = 21;
-const KU_DIGSIG: u16 = 0x0001;
+pub const KU_DIGSIG: u16 = 0x0001;
 const KU_KEYENC: u16 = 0x0004;
 const KU_CERTSIGN: u16 = 0x0020;
 const KU_CRLSIGN: u16 = 0x0040;
 
-fn build(s: &Spec) -> Vec<u8> {
+pub fn build(s: &Spec) -> Vec<u8> {
     let mut buf = vec![0u8; MAX_CERT_TLV_AND_ASN1_LEN];
     let tbs_len = {
         let mut tw = WriteBuf::new(&mut buf);
@@ -261,7 +261,8 @@ fn apply(ch: Vec<Spec>, m: &str, k: &Keys) -> Vec<Spec> {
         }
         "swapNocIca" => ch.swap(0, 1),
         "nocAsAuthority" => {
-            let mut n2 = base_noc(&k.other, &ch[ica]);
+            // a genuine NOC of another member (issued by the root) signs a NOC of its own making
+            let mut n2 = base_noc(&k.other, &ch[n - 1]);
             n2.subject = vec![(DN_NODE, 8), (DN_FABRIC, FAB)];
             let lf = base_noc(&k.noc, &n2);
             let root = ch[n - 1].clone();
